@@ -134,6 +134,18 @@ def oracle_roundtrip(ctx, alg, desc, form, mv, sup, rng):
         if (K in mv) != (K in sup) or (name in mv) != (K in sup):
             ctx.violation('contains', {**desc, 'form': form, 'blade': name}, K in sup, [K in mv, name in mv], key='roundtrip:contains')
             return
+    # blades that are not in the algebra (a letter that is no generator label) read as 0, whatever the start index
+    labels = {ch for nme in alg.canon2bin for ch in nme[1:]}
+    foreign = [ch for ch in '0123456789abcdef' if ch not in labels]
+    for ch in foreign[:4]:
+        for sp in ('e' + ch, 'e' + ch + (sorted(labels)[0] if labels else ''), 'e' + (sorted(labels)[-1] if labels else '') + ch):
+            try:
+                got = getattr(mv, sp)
+            except Exception as e:
+                got = 'raise:' + type(e).__name__
+            if got != 0:
+                ctx.violation('getattr-foreign', {**desc, 'form': form, 'spelling': sp}, 0, got, key='roundtrip:getattr:foreign')
+                return
     for g in range(d + 1):
         gr = dict(mv.grade(g).items())
         exp = {k: v for k, v in sup.items() if bin(k).count('1') == g}
@@ -338,6 +350,10 @@ def run(ctx):
         cfgs.append(([rng.choice((1, -1, 0)) for _ in range(d)], None, random_custom_basis(rng, d), rng.random() < 0.3))
     cfgs.append(([1, 1], 0, None, False))
     cfgs.append(([1, 1, 1], 2, None, False))
+    # start indices equal to 2**d (the label of the first vector then spells the number of blades)
+    cfgs.append(([1], 2, None, False))
+    cfgs.append(([1, -1], 4, None, False))
+    cfgs.append(([0, 1, 1], 8, None, False))
     simp_func_pass(ctx)
     lines, plan = [], []
     # several algebras are alive at the same time and are used alternately (shared-state defects)
@@ -421,6 +437,9 @@ def run(ctx):
                         got = 'raise:' + type(e).__name__
                     lines.append(f'getattr {tok} {",".join(map(str, ks))} {",".join(map(str, vs))} {sp}')
                     plan.append(({'sig': sig, 'basis': basis, 'keys': ks, 'values': vs, 'spelling': sp}, got))
+                    # the same access through the translated __getattr__ (validates the translator)
+                    lines.append(f'srcgetattr {tok} {",".join(map(str, ks))} {",".join(map(str, vs))} {sp}')
+                    plan.append(({'sig': sig, 'basis': basis, 'keys': ks, 'values': vs, 'spelling': sp, 'via': 'translated source'}, got))
                     ctx.case(('getattr', tok, tuple(ks), sp), tag='getattr', sample=False)
                     exp = sign * dict(zip(ks, vs)).get(alg.canon2bin[name], 0)
                     if got != str(exp):
